@@ -110,6 +110,36 @@ static std::vector<long long> gen_offsets(const std::string &kind, size_t n, siz
             if (i && !dup[i]) cur += 1 + (long long) rng.below(rng.chance(1, 4) ? 40 : 3);
             v.push_back(cur);
         }
+    } else if (kind == "convex" || kind == "concave") {
+        // smooth curves: gaps grow (convex) or shrink (concave) slowly, so that every point is a vertex of the band's hull:
+        // the builder's hulls and tangent scans get long (with a large epsilon one segment holds hundreds of vertices)
+        size_t d = 1 + rng.below(6);
+        for (size_t i = 0; i < n; ++i) {
+            v.push_back(cur);
+            size_t j = kind == "convex" ? i : n - 1 - i;
+            cur += 1 + (long long) (j / d);
+        }
+    } else if (kind == "curve_far_dense") {
+        // a smooth stretch of about eps..3*eps keys with growing gaps, one far key, a dense run: long tangent scans at the far key
+        while (v.size() < n) {
+            size_t len = eps + 2 + rng.below(2 * eps + 2), g = 1 + rng.below(3);
+            for (size_t i = 0; i < len && v.size() < n; ++i) { v.push_back(cur); cur += (long long) (1 + i / g); }
+            cur += (long long) (len * len / g) + (long long) rng.below(50);
+            if (v.size() < n) { v.push_back(cur); cur += 1; }
+            size_t dense = 2 * eps + 4 + rng.below(2 * eps + 4);
+            for (size_t i = 0; i < dense && v.size() < n; ++i) { v.push_back(cur); cur += (long long) rng.below(2); }
+            cur += 1 + (long long) rng.below(5);
+        }
+    } else if (kind == "one_curve") {
+        // one block of the shape above, scaled so that the whole array spans less than 12000 (offset normalisation: TLC can
+        // then do the arithmetic of C03 on it): keys about k^2/g apart for k = 0..len (len = eps..1.5 eps: every one a hull
+        // vertex), one key three times as far away as the stretch is long, then a dense run up to n
+        size_t len = std::min<size_t>(n > 8 ? n / 2 : n, eps + rng.below(eps / 2 + 2));
+        size_t g = std::max<size_t>(1, (4 * len * len + 9999) / 10000);
+        for (size_t k = 0; k < len && v.size() < n; ++k) { v.push_back(cur); cur += (long long) std::max<size_t>(1, (2 * k + 1) / g); }
+        cur += (long long) (3 * len * len / g) + (long long) rng.below(20);
+        if (v.size() < n) { v.push_back(cur); cur += 1; }
+        while (v.size() < n) { v.push_back(cur); cur += (long long) rng.below(2); }
     } else {                               // "random": uniform gaps 0..3
         for (size_t i = 0; i < n; ++i) { v.push_back(cur); cur += (long long) rng.below(4); }
     }
